@@ -1,0 +1,784 @@
+//go:build verif
+
+package kioshun
+
+// Verification hooks (build tag "verif"). Nothing here is compiled into the
+// default build; see verif_off.go for the stubs. The hooks give an external
+// harness a virtual clock, a trace of policy decisions the models treat as
+// oracle inputs, read-only views of internal state, direct access to the
+// table / estimator / ghost / ring components, and a cooperative scheduler that
+// parks goroutines at yield points placed between atomic accesses.
+
+import (
+	"bytes"
+	"fmt"
+	"runtime"
+	"strconv"
+	"sync"
+	"sync/atomic"
+	"time"
+
+	"github.com/unkn0wn-root/kioshun/internal/keyhash"
+	"github.com/unkn0wn-root/kioshun/internal/mathx"
+)
+
+const verifEnabled = true
+
+// ---------------------------------------------------------------- clock
+
+var (
+	verifClockOn  atomic.Bool
+	verifClockNow atomic.Int64
+)
+
+// VerifSetClock switches every cache in the process to a virtual clock.
+func VerifSetClock(on bool, now int64) {
+	verifClockNow.Store(now)
+	verifClockOn.Store(on)
+}
+
+// VerifAdvance moves the virtual clock forward and returns the new reading.
+func VerifAdvance(d int64) int64 { return verifClockNow.Add(d) }
+
+func verifClock() (int64, bool) {
+	if !verifClockOn.Load() {
+		return 0, false
+	}
+	return verifClockNow.Load(), true
+}
+
+// ---------------------------------------------------------------- oracle trace
+
+const (
+	VerifEvGhost     = 1 // a=ghostHit, b=warmup
+	VerifEvKeep      = 2 // a=shouldKeep
+	VerifEvAdmit     = 3 // a=shouldAdmit
+	VerifEvAdapt     = 4 // a=new probationCap
+	VerifEvLFUVictim = 5 // key=victim key
+)
+
+const (
+	verifEvGhost     = VerifEvGhost
+	verifEvKeep      = VerifEvKeep
+	verifEvAdmit     = VerifEvAdmit
+	verifEvAdapt     = VerifEvAdapt
+	verifEvLFUVictim = VerifEvLFUVictim
+)
+
+type VerifEvent struct {
+	Kind  int
+	Shard int
+	A, B  int64
+	Key   any
+}
+
+var verifTrace struct {
+	mu sync.Mutex
+	on bool
+	ev []VerifEvent
+}
+
+func VerifTraceOn(on bool) {
+	verifTrace.mu.Lock()
+	verifTrace.on = on
+	verifTrace.ev = nil
+	verifTrace.mu.Unlock()
+}
+
+func VerifTakeTrace() []VerifEvent {
+	verifTrace.mu.Lock()
+	ev := verifTrace.ev
+	verifTrace.ev = nil
+	verifTrace.mu.Unlock()
+	return ev
+}
+
+func verifEv(kind int, shard uint8, a, b int64, key any) {
+	verifTrace.mu.Lock()
+	if verifTrace.on {
+		verifTrace.ev = append(verifTrace.ev, VerifEvent{Kind: kind, Shard: int(shard), A: a, B: b, Key: key})
+	}
+	verifTrace.mu.Unlock()
+}
+
+func verifB(b bool) int64 {
+	if b {
+		return 1
+	}
+	return 0
+}
+
+var verifStaged atomic.Int64
+
+func verifStagedInc() { verifStaged.Add(1) }
+
+// VerifStagedCount is the number of removal notifications staged so far in this process.
+func VerifStagedCount() int64 { return verifStaged.Load() }
+
+// ---------------------------------------------------------------- constants (T-gen)
+
+func VerifConsts() map[string]int64 {
+	return map[string]int64{
+		"defaultMaxSize":          defaultMaxSize,
+		"defaultWriteBufferSize":  defaultWriteBufferSize,
+		"defaultWriteBatchSize":   defaultWriteBatchSize,
+		"maxShardCount":           maxShardCount,
+		"shardMultiplier":         shardMultiplier,
+		"defaultProbationRatio":   defaultProbationRatio,
+		"defaultGhostRatio":       defaultGhostRatio,
+		"maxItemReuse":            maxItemReuse,
+		"maxEvictionWork":         maxEvictionWork,
+		"defaultMainVictimScan":   defaultMainVictimScan,
+		"probationPromotionReuse": probationPromotionReuse,
+		"htMinSlots":              htMinSlots,
+		"htLoadNum":               htLoadNum,
+		"htLoadDen":               htLoadDen,
+		"sketchMinCounters":       sketchMinCounters,
+		"sketchAgingMultiplier":   sketchAgingMultiplier,
+		"sketchCountersPerWord":   sketchCountersPerWord,
+		"sketchCounterBits":       sketchCounterBits,
+		"sketchMaxCounter":        sketchMaxCounter,
+		"sketchBlockWords":        sketchBlockWords,
+		"sketchAgingMaskHi":       int64(uint64(sketchCounterAgingMask) >> 32),
+		"sketchAgingMaskLo":       int64(uint64(sketchCounterAgingMask) & 0xffffffff),
+		"mpscMinRing":             int64(len(newMPSCQueue[int, int](0, nil, nil).buffer)),
+		"defaultTTLns":            int64(defaultTTL),
+		"defaultCleanupNs":        int64(defaultCleanupInterval),
+		"policyDefault":           int64(DefaultEvictionPolicy),
+		"policyLRU":               int64(LRU),
+		"policyLFU":               int64(LFU),
+		"policyFIFO":              int64(FIFO),
+		"policySieve":             int64(SieveTinyLFU),
+		"defaultPolicy":           int64(DefaultConfig().EvictionPolicy),
+		"reasonCapacity":          int64(RemovedCapacity),
+		"reasonRejected":          int64(RemovedRejected),
+		"reasonExpired":           int64(RemovedExpired),
+		"reasonDeleted":           int64(RemovedDeleted),
+		"noExpiration":            int64(NoExpiration),
+		"defaultExpiration":       int64(DefaultExpiration),
+		"readStripeSlots":         readStripeSlots,
+	}
+}
+
+// ---------------------------------------------------------------- cache views
+
+func (c *Cache[K, V]) VerifHash(key K) uint64 { return c.hasher.Sum(key) }
+
+func (c *Cache[K, V]) VerifShardIndex(key K) int {
+	return int(c.hasher.Sum(key) & c.shardMask)
+}
+
+type VerifShardInfo struct {
+	Size, Cost, Cap, CostCap                          int64
+	HasSieve                                          bool
+	ProbationCap, MainCap, GhostCap, MinProb, MaxProb int64
+	AdaptStep, ProbSize, MainSize                     int64
+	SketchWords, SketchResetAt, DoorWords             int64
+	GhostRing, GhostSlots, MGhostRing                 int64
+	TabLive, TabTombs, TabSlots                       int64
+	QueueCap, BatchCap                                int64
+	QueueHead, QueueTail                              uint64
+	Staged                                            int64
+}
+
+func (c *Cache[K, V]) VerifShards() int { return len(c.shards) }
+
+func (c *Cache[K, V]) VerifShardInfo(i int) VerifShardInfo {
+	s := c.shards[i]
+	s.mu.RLock()
+	defer s.mu.RUnlock()
+	d := s.tab.data.Load()
+	info := VerifShardInfo{
+		Size: atomic.LoadInt64(&s.size), Cost: atomic.LoadInt64(&s.cost), Cap: s.cap, CostCap: s.costCap,
+		TabLive: int64(s.tab.live), TabTombs: int64(s.tab.tombs), TabSlots: int64(len(d.slots)),
+		QueueCap: int64(len(s.queue.buffer)), BatchCap: int64(len(s.writeBatch)),
+		QueueHead: s.queue.head.Load(), QueueTail: s.queue.tail.Load(),
+		Staged: int64(len(s.removeBuf)),
+	}
+	if p := s.sieve; p != nil {
+		info.HasSieve = true
+		info.ProbationCap, info.MainCap, info.GhostCap = p.probationCap, p.mainCap, p.ghostCap
+		info.MinProb, info.MaxProb, info.AdaptStep = p.minProbationCap, p.maxProbationCap, p.adaptStep
+		info.ProbSize, info.MainSize = p.probation.size, p.main.size
+		info.SketchWords, info.SketchResetAt = int64(len(p.sketch.counters)), int64(p.sketch.resetAt)
+		info.DoorWords = int64(len(p.door.bits))
+		info.GhostRing, info.GhostSlots = int64(len(p.ghost.entries)), int64(len(p.ghost.slots))
+		info.MGhostRing = int64(len(p.mghost.entries))
+	}
+	return info
+}
+
+// VerifShardKeys lists the keys in shard i's table (unfiltered by expiry).
+func (c *Cache[K, V]) VerifShardKeys(i int) []K {
+	s := c.shards[i]
+	s.mu.RLock()
+	defer s.mu.RUnlock()
+	var out []K
+	s.tab.forEach(func(it *cacheItem[K, V]) bool { out = append(out, it.key); return true })
+	return out
+}
+
+// VerifSieveQueues dumps the policy queues of shard i, head (newest) first.
+func (c *Cache[K, V]) VerifSieveQueues(i int) (prob, main []K, hand *K) {
+	s := c.shards[i]
+	s.mu.RLock()
+	defer s.mu.RUnlock()
+	p := s.sieve
+	if p == nil {
+		return
+	}
+	for it := p.probation.head.next; it != nil && it != &p.probation.tail; it = it.next {
+		prob = append(prob, it.key)
+	}
+	for it := p.main.head.next; it != nil && it != &p.main.tail; it = it.next {
+		main = append(main, it.key)
+	}
+	if p.hand != nil {
+		k := p.hand.key
+		hand = &k
+	}
+	return
+}
+
+// VerifListKeys dumps the shared LRU/FIFO list of shard i, head (MRU) first.
+func (c *Cache[K, V]) VerifListKeys(i int) []K {
+	s := c.shards[i]
+	s.mu.RLock()
+	defer s.mu.RUnlock()
+	var out []K
+	if s.head == nil {
+		return nil
+	}
+	for it := s.head.next; it != nil && it != s.tail; it = it.next {
+		out = append(out, it.key)
+	}
+	return out
+}
+
+// VerifFlushRemovals delivers staged removal notifications on the caller's goroutine.
+func (c *Cache[K, V]) VerifFlushRemovals() {
+	if c.removeWake != nil {
+		c.drainRemovals()
+	}
+}
+
+// VerifClosed reports whether Close was called.
+func (c *Cache[K, V]) VerifClosed() bool { return c.isClosed() }
+
+// VerifCheckInvariants cross-checks table, policy lists and counters of every
+// shard. It localises a divergence; the models and monitors are the oracles.
+func (c *Cache[K, V]) VerifCheckInvariants() error {
+	for i, s := range c.shards {
+		if err := c.verifCheckShard(i, s); err != nil {
+			return err
+		}
+	}
+	return nil
+}
+
+func (c *Cache[K, V]) verifCheckShard(i int, s *shard[K, V]) error {
+	s.mu.RLock()
+	defer s.mu.RUnlock()
+	d := s.tab.data.Load()
+	live, tombs := 0, 0
+	seen := make(map[K]*cacheItem[K, V])
+	var cost int64
+	for j := range d.slots {
+		tag := d.slots[j].tag.Load()
+		it := d.slots[j].item.Load()
+		switch {
+		case tag == 0:
+			if it != nil {
+				return fmt.Errorf("shard %d slot %d: empty tag with item", i, j)
+			}
+		case tag == 1:
+			tombs++
+			if it != nil {
+				return fmt.Errorf("shard %d slot %d: tombstone with item", i, j)
+			}
+		default:
+			live++
+			if it == nil {
+				return fmt.Errorf("shard %d slot %d: live tag without item", i, j)
+			}
+			if htNormHash(it.hash) != tag {
+				return fmt.Errorf("shard %d slot %d: tag/hash mismatch", i, j)
+			}
+			if _, dup := seen[it.key]; dup {
+				return fmt.Errorf("shard %d: key %v stored twice", i, it.key)
+			}
+			seen[it.key] = it
+			cost += it.cost
+			if got, ok := s.tab.lookup(it.hash, it.key); !ok || got != it {
+				return fmt.Errorf("shard %d: resident key %v not found by lookup", i, it.key)
+			}
+			if it.unpublished {
+				return fmt.Errorf("shard %d: unpublished item %v in table", i, it.key)
+			}
+		}
+	}
+	if live != s.tab.live || tombs != s.tab.tombs {
+		return fmt.Errorf("shard %d: table counters live=%d tombs=%d, contents live=%d tombs=%d", i, s.tab.live, s.tab.tombs, live, tombs)
+	}
+	if s.tab.pinned != htNoPin {
+		return fmt.Errorf("shard %d: probe cursor still pinned", i)
+	}
+	if (live+tombs)*htLoadDen >= len(d.slots)*htLoadNum {
+		return fmt.Errorf("shard %d: table load %d+%d of %d at or above limit", i, live, tombs, len(d.slots))
+	}
+	if sz := atomic.LoadInt64(&s.size); sz != int64(live) {
+		return fmt.Errorf("shard %d: size counter %d != table entries %d", i, sz, live)
+	}
+	if c.trackCost {
+		if sc := atomic.LoadInt64(&s.cost); sc != cost {
+			return fmt.Errorf("shard %d: cost counter %d != sum of item costs %d", i, sc, cost)
+		}
+	}
+	inList := make(map[*cacheItem[K, V]]bool)
+	if p := s.sieve; p != nil {
+		for _, q := range []*sieveQueue[K, V]{&p.probation, &p.main} {
+			n := int64(0)
+			prev := &q.head
+			for it := q.head.next; it != &q.tail; it = it.next {
+				if it == nil {
+					return fmt.Errorf("shard %d: broken queue chain", i)
+				}
+				if it.prev != prev {
+					return fmt.Errorf("shard %d: queue back link broken at %v", i, it.key)
+				}
+				if !q.holds(it) {
+					return fmt.Errorf("shard %d: queue holds foreign item %v", i, it.key)
+				}
+				if inList[it] {
+					return fmt.Errorf("shard %d: item %v linked twice", i, it.key)
+				}
+				inList[it] = true
+				if seen[it.key] != it {
+					return fmt.Errorf("shard %d: queued item %v is not the table's item", i, it.key)
+				}
+				prev = it
+				n++
+				if n > int64(live)+1 {
+					return fmt.Errorf("shard %d: queue longer than table", i)
+				}
+			}
+			if n != q.size {
+				return fmt.Errorf("shard %d: queue size %d != linked %d", i, q.size, n)
+			}
+		}
+		if len(inList) != live {
+			return fmt.Errorf("shard %d: %d queued items, %d table entries", i, len(inList), live)
+		}
+		if p.hand != nil && !p.main.holds(p.hand) {
+			return fmt.Errorf("shard %d: hand points outside main", i)
+		}
+		if p.probationCap+p.mainCap != p.capacity || p.probationCap < p.minProbationCap || p.probationCap > p.maxProbationCap {
+			return fmt.Errorf("shard %d: segment caps %d+%d of %d", i, p.probationCap, p.mainCap, p.capacity)
+		}
+	} else {
+		n := 0
+		prev := s.head
+		for it := s.head.next; it != s.tail; it = it.next {
+			if it == nil || it.prev != prev {
+				return fmt.Errorf("shard %d: broken LRU chain", i)
+			}
+			if inList[it] {
+				return fmt.Errorf("shard %d: item %v linked twice", i, it.key)
+			}
+			inList[it] = true
+			if seen[it.key] != it {
+				return fmt.Errorf("shard %d: listed item %v is not the table's item", i, it.key)
+			}
+			prev = it
+			n++
+			if n > live+1 {
+				return fmt.Errorf("shard %d: list longer than table", i)
+			}
+		}
+		if n != live {
+			return fmt.Errorf("shard %d: %d listed items, %d table entries", i, n, live)
+		}
+		if l := s.lfuList; l != nil {
+			if len(l.itemFreq) != live {
+				return fmt.Errorf("shard %d: LFU tracks %d items, table has %d", i, len(l.itemFreq), live)
+			}
+			last := int64(0)
+			cnt := 0
+			for b := l.head.next; b != l.head; b = b.next {
+				if b.freq <= last {
+					return fmt.Errorf("shard %d: LFU buckets not ascending", i)
+				}
+				last = b.freq
+				if len(b.items) == 0 {
+					return fmt.Errorf("shard %d: empty LFU bucket %d", i, b.freq)
+				}
+				if l.freqMap[b.freq] != b {
+					return fmt.Errorf("shard %d: LFU freqMap mismatch", i)
+				}
+				for it := range b.items {
+					if l.itemFreq[it] != b || seen[it.key] != it {
+						return fmt.Errorf("shard %d: LFU bucket item mismatch", i)
+					}
+					cnt++
+				}
+			}
+			if cnt != live {
+				return fmt.Errorf("shard %d: LFU buckets hold %d, table %d", i, cnt, live)
+			}
+		}
+	}
+	return nil
+}
+
+// VerifLFUFreq reports the LFU bucket frequency of key (0 if untracked).
+func (c *Cache[K, V]) VerifLFUFreq(key K) int64 {
+	kh := c.hasher.Sum(key)
+	s := c.shardByHash(kh)
+	s.mu.RLock()
+	defer s.mu.RUnlock()
+	if s.lfuList == nil {
+		return 0
+	}
+	it, ok := s.tab.lookup(kh, key)
+	if !ok {
+		return 0
+	}
+	if n := s.lfuList.itemFreq[it]; n != nil {
+		return n.freq
+	}
+	return 0
+}
+
+// VerifQueueDepth is head-tail of shard i's write ring.
+func (c *Cache[K, V]) VerifQueueDepth(i int) int64 {
+	q := c.shards[i].queue
+	return int64(q.head.Load() - q.tail.Load())
+}
+
+// VerifGoroutines is the current goroutine count.
+func VerifGoroutines() int { return runtime.NumGoroutine() }
+
+// ---------------------------------------------------------------- component wrappers
+
+// VerifHtable drives the real htable with caller-chosen hashes.
+type VerifHtable struct {
+	t     *htable[int, int]
+	cur   htCursor[int, int]
+	slot  *htslot[int, int]
+	found *cacheItem[int, int]
+	last  map[int]*cacheItem[int, int] // most recent item object created per key (for stale removal)
+}
+
+func NewVerifHtable(capHint int) *VerifHtable {
+	return &VerifHtable{t: newHtable[int, int](capHint), last: map[int]*cacheItem[int, int]{}}
+}
+
+func (h *VerifHtable) mk(key int, hash uint64, val int) *cacheItem[int, int] {
+	it := &cacheItem[int, int]{key: key, hash: hash, value: val}
+	return it
+}
+
+func (h *VerifHtable) Store(key int, hash uint64, val int) (int, bool) {
+	it := h.mk(key, hash, val)
+	h.last[key] = it
+	if prev := h.t.store(it); prev != nil {
+		return prev.value, true
+	}
+	return 0, false
+}
+
+func (h *VerifHtable) Lookup(key int, hash uint64) (int, bool) {
+	if it, ok := h.t.lookup(hash, key); ok {
+		return it.value, true
+	}
+	return 0, false
+}
+
+// Probe returns (found, value). On a miss the cursor stays pinned until Publish or Unpin.
+func (h *VerifHtable) Probe(key int, hash uint64) (bool, int) {
+	prev, slot, cur := h.t.probe(hash, key)
+	h.found, h.slot, h.cur = prev, slot, cur
+	if prev != nil {
+		return true, prev.value
+	}
+	return false, 0
+}
+
+func (h *VerifHtable) SwapAt(key int, hash uint64, val int) {
+	it := h.mk(key, hash, val)
+	h.last[key] = it
+	h.t.swapAt(h.slot, it)
+	h.found, h.slot = nil, nil
+}
+
+func (h *VerifHtable) Publish(key int, hash uint64, val int) {
+	it := h.mk(key, hash, val)
+	h.last[key] = it
+	h.t.publish(it, h.cur)
+}
+
+func (h *VerifHtable) Unpin() { h.t.unpin() }
+
+// Remove looks key up and removes exactly that item.
+func (h *VerifHtable) Remove(key int, hash uint64) bool {
+	it, ok := h.t.lookup(hash, key)
+	if !ok {
+		return false
+	}
+	return h.t.removeExact(it)
+}
+
+// RemoveLastObject calls removeExact with the most recently created item object of
+// key, whether or not it is still the table's item (identity check exercise).
+func (h *VerifHtable) RemoveLastObject(key int) (bool, bool) {
+	it := h.last[key]
+	if it == nil {
+		return false, false
+	}
+	return h.t.removeExact(it), true
+}
+
+func (h *VerifHtable) Clear()   { h.t.clear(); h.last = map[int]*cacheItem[int, int]{} }
+func (h *VerifHtable) Len() int { return h.t.length() }
+func (h *VerifHtable) Counters() (live, tombs, slots int, pinned int64) {
+	d := h.t.data.Load()
+	p := int64(-1)
+	if h.t.pinned != htNoPin {
+		p = int64(h.t.pinned)
+	}
+	return h.t.live, h.t.tombs, len(d.slots), p
+}
+
+func (h *VerifHtable) ForEach(fn func(key, val int)) {
+	h.t.forEach(func(it *cacheItem[int, int]) bool { fn(it.key, it.value); return true })
+}
+
+// Dump returns per slot (tag class 0/1/2, key or -1, value).
+func (h *VerifHtable) Dump() [][3]int64 {
+	d := h.t.data.Load()
+	out := make([][3]int64, len(d.slots))
+	for i := range d.slots {
+		tag := d.slots[i].tag.Load()
+		it := d.slots[i].item.Load()
+		c := int64(2)
+		if tag < 2 {
+			c = int64(tag)
+		}
+		out[i] = [3]int64{c, -1, 0}
+		if it != nil {
+			out[i][1], out[i][2] = int64(it.key), int64(it.value)
+		}
+	}
+	return out
+}
+
+// VerifEstimator drives the real doorkeeper + sketch through the policy's own
+// incrementFrequency / estimate.
+type VerifEstimator struct{ p *sieveTinyLFU[int, int] }
+
+func NewVerifEstimator(capacity int64) *VerifEstimator {
+	return &VerifEstimator{p: newSieveTinyLFU[int, int](capacity, 0, 0, 0, CostAdmissionFrequency)}
+}
+func (e *VerifEstimator) Record(h uint64)       { e.p.incrementFrequency(h) }
+func (e *VerifEstimator) Tick()                 { e.p.tickObservation() }
+func (e *VerifEstimator) Estimate(h uint64) int { return int(e.p.estimate(h)) }
+func (e *VerifEstimator) SketchPart(h uint64) int {
+	return int(e.p.sketch.estimate(keyhash.Avalanche(h)))
+}
+func (e *VerifEstimator) DoorHas(h uint64) bool     { return e.p.door.contains(keyhash.Avalanche(h)) }
+func (e *VerifEstimator) Samples() (uint64, uint64) { return e.p.sketch.samples, e.p.sketch.resetAt }
+func (e *VerifEstimator) Sizes() (words, doorWords int) {
+	return len(e.p.sketch.counters), len(e.p.door.bits)
+}
+func (e *VerifEstimator) Clear() { e.p.sketch.clear(); e.p.door.clear() }
+
+// VerifAvalanche exposes the shared finalizer.
+func VerifAvalanche(h uint64) uint64 { return keyhash.Avalanche(h) }
+
+// VerifNextPow2 / VerifPrevPow2 expose the rounding helpers.
+func VerifNextPow2(n int) int     { return mathx.NextPowerOf2(n) }
+func VerifPrevPow2(n int64) int64 { return mathx.PrevPowerOf2(n) }
+
+// VerifGhost drives a real ghostQueue.
+type VerifGhost struct{ g ghostQueue }
+
+func NewVerifGhost(n int) *VerifGhost          { return &VerifGhost{g: newGhostQueue(n)} }
+func (g *VerifGhost) Add(h uint64)             { g.g.add(h) }
+func (g *VerifGhost) Remove(h uint64) bool     { return g.g.remove(h) }
+func (g *VerifGhost) Contains(h uint64) bool   { return g.g.contains(h) }
+func (g *VerifGhost) Clear()                   { g.g.clear() }
+func (g *VerifGhost) Count() int               { return g.g.count() }
+func (g *VerifGhost) Sizes() (ring, slots int) { return len(g.g.entries), len(g.g.slots) }
+
+// VerifMPSC drives a real ring outside a cache.
+type VerifMPSC struct {
+	q       *mpscQueue[int, int]
+	wake    chan struct{}
+	closeCh chan struct{}
+}
+
+func NewVerifMPSC(size int) *VerifMPSC {
+	m := &VerifMPSC{wake: make(chan struct{}, 1), closeCh: make(chan struct{})}
+	m.q = newMPSCQueue[int, int](size, m.wake, m.closeCh)
+	return m
+}
+func (m *VerifMPSC) Enqueue(v int) error { return m.q.enqueue(writeCommand[int, int]{key: v}) }
+func (m *VerifMPSC) TryDequeue(max int) []int {
+	buf := make([]writeCommand[int, int], max)
+	n := m.q.tryDequeue(buf)
+	out := make([]int, n)
+	for i := 0; i < n; i++ {
+		out[i] = buf[i].key
+	}
+	return out
+}
+func (m *VerifMPSC) Ready() bool     { return m.q.ready() }
+func (m *VerifMPSC) Quiescent() bool { return m.q.quiescent() }
+func (m *VerifMPSC) Close()          { close(m.closeCh) }
+func (m *VerifMPSC) State() (head, tail uint64, wakeState uint32, wakeTok, spaceTok bool, ring int) {
+	return m.q.head.Load(), m.q.tail.Load(), m.q.wakeState.Load(), len(m.wake) > 0, len(m.q.space) > 0, len(m.q.buffer)
+}
+func (m *VerifMPSC) TakeWake() bool {
+	select {
+	case <-m.wake:
+		return true
+	default:
+		return false
+	}
+}
+func (m *VerifMPSC) ClearWakeState() { m.q.wakeState.Store(0) }
+func (m *VerifMPSC) RearmWake() bool { return m.q.wakeState.CompareAndSwap(0, 1) }
+
+// ---------------------------------------------------------------- cooperative scheduler
+
+type verifThread struct {
+	id     int
+	resume chan struct{}
+	parked chan int
+	done   chan struct{}
+	atPark bool
+}
+
+type verifSchedT struct {
+	on      atomic.Bool
+	mu      sync.Mutex
+	byGoid  map[int64]*verifThread
+	byID    map[int]*verifThread
+	timeout time.Duration
+}
+
+var verifSched verifSchedT
+
+func (s *verifSchedT) byIDGet(id int) *verifThread {
+	s.mu.Lock()
+	defer s.mu.Unlock()
+	return s.byID[id]
+}
+
+func verifGoid() int64 {
+	var buf [64]byte
+	n := runtime.Stack(buf[:], false)
+	b := bytes.TrimPrefix(buf[:n], []byte("goroutine "))
+	if i := bytes.IndexByte(b, ' '); i >= 0 {
+		b = b[:i]
+	}
+	id, _ := strconv.ParseInt(string(b), 10, 64)
+	return id
+}
+
+// VerifSchedReset (re)starts the scheduler with no threads.
+func VerifSchedReset(on bool, timeout time.Duration) {
+	verifSched.mu.Lock()
+	verifSched.byGoid = map[int64]*verifThread{}
+	verifSched.byID = map[int]*verifThread{}
+	verifSched.timeout = timeout
+	verifSched.mu.Unlock()
+	verifSched.on.Store(on)
+}
+
+func verifRegisterSelf(id int) *verifThread {
+	th := &verifThread{id: id, resume: make(chan struct{}), parked: make(chan int, 1), done: make(chan struct{})}
+	verifSched.mu.Lock()
+	verifSched.byGoid[verifGoid()] = th
+	verifSched.byID[id] = th
+	verifSched.mu.Unlock()
+	return th
+}
+
+// VerifSchedSpawn starts fn as schedulable thread id; it parks at point 0 before running.
+func VerifSchedSpawn(id int, fn func()) {
+	ready := make(chan struct{})
+	go func() {
+		th := verifRegisterSelf(id)
+		close(ready)
+		th.parked <- 0
+		<-th.resume
+		fn()
+		verifSched.mu.Lock()
+		delete(verifSched.byGoid, verifGoid())
+		verifSched.mu.Unlock()
+		close(th.done)
+	}()
+	<-ready
+	th := verifSched.byIDGet(id)
+	<-th.parked
+	th.atPark = true
+}
+
+// Step results.
+const (
+	VerifStepDone    = -1
+	VerifStepBlocked = -2
+	VerifStepUnknown = -3
+)
+
+// VerifSchedStep lets thread id run to its next yield point and returns that point,
+// VerifStepDone when it finished, or VerifStepBlocked when it did not reach a yield
+// point within the timeout (it is then blocked in a lock or channel operation).
+func VerifSchedStep(id int) int {
+	th := verifSched.byIDGet(id)
+	if th == nil {
+		return VerifStepUnknown
+	}
+	if th.atPark {
+		th.atPark = false
+		th.resume <- struct{}{}
+	}
+	select {
+	case p := <-th.parked:
+		th.atPark = true
+		return p
+	case <-th.done:
+		return VerifStepDone
+	case <-time.After(verifSched.timeout):
+		return VerifStepBlocked
+	}
+}
+
+// VerifSchedKnown reports whether a thread with this id registered.
+func VerifSchedKnown(id int) bool { return verifSched.byIDGet(id) != nil }
+
+func verifYield(point int) {
+	if !verifSched.on.Load() {
+		return
+	}
+	verifSched.mu.Lock()
+	th := verifSched.byGoid[verifGoid()]
+	verifSched.mu.Unlock()
+	if th == nil {
+		return
+	}
+	th.parked <- point
+	<-th.resume
+}
+
+// verifAdopt registers the calling (library-spawned) goroutine as thread id when
+// the scheduler is on, parking it at point 0 first.
+func verifAdopt(id int) {
+	if !verifSched.on.Load() {
+		return
+	}
+	th := verifRegisterSelf(id)
+	th.parked <- 0
+	<-th.resume
+}
